@@ -5,7 +5,7 @@ import framework as fw
 import cp_common as cp
 
 ID = "C08"
-COQ_IMPORTS = ["From HTA.lib Require Import Dag.", "From HTA.model Require Import C08_Model C08_Host."]
+COQ_IMPORTS = ["From HTA.lib Require Import Dag.", "From HTA.model Require Import C08_Model C08_Host C08_Dev."]
 SOURCES = cp.SOURCES
 ASSUMPTIONS_HOST = "the depth-first traversal order is taken from the implementation's CallStackGraph.dfs_traverse; its well-formedness (wf_actions) is decided in Coq on every case"
 N_CASES = {"quick": 250, "thorough": 4000}
@@ -58,6 +58,7 @@ def run_impl(case, d):
         res["order"] = topo_order(res["graph"])
         try:
             res["traversal"] = cp.dump_host_traversal(ta, res["rank"])
+            res["queue"] = cp.queue_lengths(ta, res["rank"])
         except Exception as e:
             res["traversal_error"] = type(e).__name__ + ": " + str(e)[:200]
     return res
@@ -80,7 +81,27 @@ def coq_term(case, impl):
     if "graph" not in impl:
         return "[false]"
     g = impl["graph"]
-    return f"(check_C08 {fw.b(impl['zero_weight_env'])} {clipped_lit(impl)} {nodes_lit(g)} {edges_lit(g)} {fw.zl(impl['order'])}, {host_term(impl)})"
+    return (f"(check_C08 {fw.b(impl['zero_weight_env'])} {clipped_lit(impl)} {nodes_lit(g)} {edges_lit(g)} {fw.zl(impl['order'])}, {host_term(impl)}, "
+            f"{dev_term(impl)})")
+
+
+def _drow_lit(r):
+    z, b = fw.z, fw.b
+    if r[0] == "DK":
+        return f"DK {z(r[1])} {z(r[2])} {z(r[3])} {z(r[4])} {z(r[5])} {z(r[6])} {b(r[7])} {z(r[8])} {z(r[9])}"
+    if r[0] == "DS":
+        return f"DS {z(r[1])} {z(r[2])} {z(r[3])} {b(r[4])}"
+    if r[0] == "DC":
+        return f"DC {z(r[1])} {z(r[2])} {b(r[3])}"
+    return "DE"
+
+
+def dev_term(impl):
+    """the device-side builder model (coq/model/C08_Dev.v) applied to the window's activities and sync records"""
+    if "queue" not in impl:
+        return "(true, true, [])"
+    rows, _ = cp.dev_model_inputs(impl)
+    return f"encode_dev {fw.b(impl['zero_weight_env'])} [" + "; ".join(_drow_lit(r) for r in rows) + "]"
 
 
 def host_term(impl):
@@ -110,14 +131,41 @@ def compare(case, impl, model):
     for e in g["edges"]:
         if [e[0], e[1]] != e[5]:
             disc.append(f"edge object {e[5]} stored on graph edge ({e[0]}, {e[1]})")
-    checks, host = model[:len(CHECKS)], model[len(CHECKS):]
-    if len(model) == 2 and isinstance(model[0], list):
-        checks, host = model[0], model[1]
+    checks, host, dev = split_model(model)
     for ok, what in zip(checks, CHECKS):
         if not ok:
             disc.append(f"check_C08 rejects the graph: {what} {w}")
     disc += compare_host(impl, host, w)
+    disc += compare_dev(impl, dev, w)
     return disc[:6]
+
+
+def split_model(model):
+    """Coq prints nested pairs flat: (checks, host, dev) or (checks, host, ok, dwf, edges)"""
+    model = list(model)
+    checks, host = model[0], model[1]
+    dev = model[2:] if len(model) > 3 else (model[2] if len(model) == 3 else None)
+    return checks, host, dev
+
+
+def compare_dev(impl, dev, w):
+    """edges touching the device side (activity spans, launch delays, kernel-to-kernel delays, synchronisation) of the real graph against the
+    device-side model"""
+    if "queue" not in impl or dev is None:
+        return []
+    ok, dwf, edges = dev[0], dev[1], [list(e) for e in dev[2]]
+    _, impl_edges = cp.dev_model_inputs(impl)
+    disc = []
+    if not ok:
+        disc.append(f"device-side model: the builder's assertion about the launch call would fail (launch-delay edge wanted from a call without nodes) {w}")
+    if not dwf:
+        disc.append(f"harness: the processing sequence of the window is not causally consistent (dwf = false): outside the quantifier {w}")
+    if edges != impl_edges:
+        only_i = [e for e in impl_edges if e not in edges][:3]
+        only_m = [e for e in edges if e not in impl_edges][:3]
+        disc.append(f"device-side edges differ from the model of _construct_graph_from_kernels: only in the graph {only_i}; only in the model {only_m} "
+                    f"as (event, is_start, event, is_start, weight, type, attributed event) {w}")
+    return disc
 
 
 def compare_host(impl, host, w):
@@ -160,8 +208,10 @@ LEVEL_TEXT = ("Proof (verified checker): C08_check_sound: a graph accepted by ch
               "Coq on the graph critical_path_analysis returns for every generated window. Host side additionally by proof about the builder itself: "
               "C08_host_edges_forward_nonneg: the enter / exit state machine of _construct_graph_from_call_stack (coq/model/C08_Host.v), run over ANY depth-first "
               "traversal of properly nested events in time order, emits only forward, non-negative edges weighing the time difference (or zero for dependencies "
-              "and blocking calls); its edges and attributions are compared with the real graph's host-to-host edges on every case. The device-side builder "
-              "(_construct_graph_from_kernels) is not modelled (partial).")
+              "and blocking calls); its edges and attributions are compared with the real graph's host-to-host edges on every case. Device side likewise: "
+              "C08_dev_edges_forward_typed: the loop of _construct_graph_from_kernels with its per-stream state (coq/model/C08_Dev.v), over ANY causally consistent "
+              "processing sequence, emits only forward, non-negative, correctly typed edges; the model's edges are compared with all device-side edges of the real "
+              "graph on every case. CUDA-event synchronisation is modelled as attaching no edge (what the code does under pandas 3).")
 LEVEL_NOTE = ("Translation-validation style: the theorem is about the checker, the tie to the code is the per-run evaluation of the checker on the real graph. "
               "Event-record / stream-wait synchronisation is generated but attaches no edge under pandas 3 (see assumptions), so the event-sync edge rules are exercised only vacuously. networkx's topological order is an unchecked hint for the checked rank witness.")
 TECHNIQUE = "Coq-verified checker (reflection of the property's clauses; acyclicity by rank function) evaluated by vm_compute on every real graph + Gallina model of the host-side builder (state-machine invariant proof) in differential correspondence"
